@@ -223,23 +223,23 @@ pub fn game_program(rng: &mut Rng, start: &Board, len: usize) -> Vec<Act> {
             }
             continue;
         }
-        if r < 62 {
+        if r < 70 {
             let m = choose_move(rng, &b, &ms, style);
             acts.push(Act::M(m));
             if let Some(n) = guard(|| b.make_move_new(m)) {
                 b = n;
             }
-        } else if r < 72 {
+        } else if r < 78 {
             acts.push(Act::M(illegal_move(rng, &b, &ms)));
-        } else if r < 80 {
+        } else if r < 83 {
             acts.push(Act::Offer(col(rng)));
             // often followed by a move and/or an accept
-            match rng.below(4) {
+            match rng.below(10) {
                 0 => {
                     acts.push(Act::Accept);
                     over = true;
                 }
-                1 => {
+                1 | 2 => {
                     let m = choose_move(rng, &b, &ms, style);
                     acts.push(Act::M(m));
                     if let Some(n) = guard(|| b.make_move_new(m)) {
@@ -253,9 +253,9 @@ pub fn game_program(rng: &mut Rng, start: &Board, len: usize) -> Vec<Act> {
                 }
                 _ => {}
             }
-        } else if r < 86 {
+        } else if r < 87 {
             acts.push(Act::Accept); // premature accept
-        } else if r < 92 {
+        } else if r < 93 {
             acts.push(Act::Can);
         } else if r < 96 {
             acts.push(Act::Declare);
@@ -277,8 +277,11 @@ pub fn game_program(rng: &mut Rng, start: &Board, len: usize) -> Vec<Act> {
     if !over {
         acts.push(Act::Can);
         acts.push(Act::Declare);
-        acts.push(Act::Resign(col(rng)));
-        acts.push(Act::Offer(col(rng)));
+        if rng.chance(1, 3) {
+            acts.push(Act::Resign(col(rng)));
+            acts.push(Act::Offer(col(rng)));
+            acts.push(Act::Can);
+        }
     }
     acts
 }
